@@ -101,7 +101,64 @@ fn dense_plan(rng: &mut Rng) -> Result<(Vec<u8>, Vec<lower::Inj>), String> {
 
 /// Bases with structurally identical types + type additions that hit them, then functions
 /// imported / built with the returned ids (so the ids are visible in the output bytes).
+/// hand-built base: several non-final `(sub (func (param i32)))` declarations of one signature (some with a supertype), no
+/// plain declaration of it; a request for that signature must not resolve to "whichever of them a hash map yields first"
+fn sub_types_base(rng: &mut Rng) -> Vec<u8> {
+    use wasm_encoder::{CodeSection, CompositeInnerType, CompositeType, FuncType, Function, FunctionSection, Module, SubType, TypeSection, ValType};
+    let mut types = TypeSection::new();
+    let k = rng.range(2, 5);
+    for i in 0..k {
+        let sup = if i > 0 && rng.bool() { Some(rng.below(i) as u32) } else { None };
+        types.ty().subtype(&SubType {
+            is_final: false,
+            supertype_idx: sup,
+            composite_type: CompositeType { inner: CompositeInnerType::Func(FuncType::new([ValType::I32], [])), shared: false },
+        });
+    }
+    types.ty().function([], []);
+    let mut funcs = FunctionSection::new();
+    funcs.function(k as u32);
+    let mut code = CodeSection::new();
+    let mut f = Function::new([]);
+    f.instruction(&wasm_encoder::Instruction::End);
+    code.function(&f);
+    let mut m = Module::new();
+    m.section(&types);
+    m.section(&funcs);
+    m.section(&code);
+    m.finish()
+}
+
 fn types_scenario(rng: &mut Rng, n_enc: usize) -> Result<(Vec<u8>, Value, Vec<Result<Vec<u8>, PanicInfo>>), String> {
+    if rng.chance(1, 4) {
+        let bytes = sub_types_base(rng);
+        crate::sym::validate(&bytes).map_err(|e| format!("generator reject: {}", e))?;
+        let desc = json!({"profile": "sub-types-of-one-signature", "base_hex": hex(&bytes), "requests": ["([I32], [])"]});
+        let b2 = bytes.clone();
+        let r = catch(move || {
+            let mut m = wirm::Module::parse(&b2, true).map_err(|e| format!("{}", e))?;
+            let t = m.types.add_func_type(&[wirm::DataType::I32], &[], None);
+            m.add_import_func("types".to_string(), "f".to_string(), t);
+            // a built function of that signature as well (FunctionBuilder looks the type up the same way)
+            let fb = wirm::ir::function::FunctionBuilder::new(&[wirm::DataType::I32], &[]);
+            fb.finish_module(&mut m);
+            let mut encs = vec![];
+            for _ in 0..n_enc.max(1) {
+                let e = catch(|| m.encode());
+                let stop = e.is_err();
+                encs.push(e);
+                if stop {
+                    break;
+                }
+            }
+            Ok::<_, String>(encs)
+        });
+        return match r {
+            Ok(Ok(encs)) => Ok((bytes, desc, encs)),
+            Ok(Err(e)) => Err(format!("base not usable: {}", crate::runner::norm_msg(&e))),
+            Err(p) => Err(format!("call panic (subject of C13): {}", p.sig())),
+        };
+    }
     let mut cfg = GenCfg::default_for(rng);
     cfg.avoid_exnref = true;
     cfg.max_types = 12;
